@@ -152,3 +152,102 @@ def _param_sinks(prog, f, pname, sinks):
     return False
 
 
+
+
+# ---------------------------------------------------------------------------------------------------------------
+# field-sensitive part: a callee that dereferences <param>-><field> without a null test, and callers that pass an object
+# whose field may still be NULL (half-built object handed to a destructor / reset function)
+def unguarded_field_derefs(prog, sinks=None):
+    """{(function name, param index): {field name: witness instr}} - pointer-typed fields of the parameter that are loaded and
+    dereferenced (directly or by a callee that dereferences its parameter unguarded) with no null test of the loaded value;
+    closed over calls that pass the parameter on"""
+    from .flow import Paths
+    sinks = sinks if sinks is not None else unguarded_deref_params(prog)
+    res = {}
+    fns = [f for f in prog.all_functions()]
+    paths = {}
+    changed = True
+    rounds = 0
+    while changed and rounds < 6:
+        changed = False
+        rounds += 1
+        for f in fns:
+            P = paths.get(f.name)
+            if P is None:
+                P = paths[f.name] = Paths(f, prog)
+            for k, (t, nm) in enumerate(f.params):
+                if not t.endswith("*") or nm is None:
+                    continue
+                cur = res.setdefault((f.name, k), {})
+                for i in f.instrs():
+                    if i.op == "load" and i.type.endswith("*") and i.res is not None:
+                        p = P.path(i.ops[0])
+                        if not p.startswith(nm + "->") or "->" in p[len(nm) + 2:] or "[" in p:
+                            continue
+                        field = p[len(nm) + 2:]
+                        if field in cur:
+                            continue
+                        for u, regs, kind in deref_consumers(prog, f, i.res, sinks):
+                            if not flow.guarded_nonnull(f, regs, u):
+                                cur[field] = u
+                                changed = True
+                                break
+                    elif i.op == "call" and i.callee:
+                        for ai, a in enumerate(i.ops):
+                            if a.kind == "reg" and a.v == nm and (i.callee, ai) in res:
+                                for field, w in res[(i.callee, ai)].items():
+                                    if field not in cur:
+                                        cur[field] = i
+                                        changed = True
+    return {k: v for k, v in res.items() if v}
+
+
+def maybe_null_field_at_call(prog, f, P, call, argidx, field, may_null):
+    """the field <arg>-><field> was last assigned from a may-fail allocation in this function and no non-null test of it
+    dominates the call: returns the allocating store or None"""
+    a = call.ops[argidx]
+    if a.kind != "reg":
+        return None
+    # the address of the first member is the object itself (struct json_object base; casts between node types)
+    hops = 0
+    while a.kind == "reg" and a.v in f.defs and hops < 6:
+        d = f.defs[a.v]
+        if d.op == "bitcast":
+            a = d.ops[0]
+        elif d.op == "getelementptr" and all(o.kind == "int" and o.v == 0 for o in d.ops[1:]):
+            a = d.ops[0]
+        else:
+            break
+        hops += 1
+    if a.kind != "reg":
+        return None
+    base = P.path(a)
+    target = base + "->" + field
+    stores = [s for s in f.instrs() if s.op == "store" and P.path(s.ops[1]) == target]
+    src = None
+    for s in stores:
+        v = s.ops[0]
+        d = f.defs.get(v.v) if v.kind == "reg" else None
+        hops = 0
+        while d is not None and d.op == "bitcast" and hops < 4:
+            v = d.ops[0]
+            d = f.defs.get(v.v) if v.kind == "reg" else None
+            hops += 1
+        if d is not None and d.op == "call" and d.callee in may_null:
+            src = s
+    if src is None:
+        return None
+    cfg = cfg_of(f)
+    if src.block is not call.block and call.block not in cfg.reachable_from(src.block):
+        return None
+    # a dominating test that the field is non-null
+    for c, tr in flow.dominating_conditions(f, call.block):
+        if getattr(c, "op", None) != "icmp":
+            continue
+        x, y = c.ops
+        px = P.path(x) if x.kind == "reg" else None
+        if px == target and y.kind == "null":
+            nonnull = (c.x["pred"] == "ne") == tr
+            if nonnull:
+                return None
+    return src
